@@ -42,3 +42,5 @@ def run(chk, replay=None):
     chk.prove()
     k1.run_unit(chk, mutex.MutexV1())
     k1.run_unit(_Keyed(chk), mutex.MutexV2())
+    import units.atomic_list as _al
+    k1.run_unit(_al.Keyed(chk), _al.AtomicList())   # link-level list under both mutexes/events (Properties_C15_list.v)
